@@ -1,6 +1,6 @@
 #!/bin/bash
 # tools/regen_all.sh [tier] : run every property's check on /repo (rewrites evidence/*.json); prints one line per property
-cd /verif
+cd "$(dirname "$0")/.."
 T=${1:-quick}
 for i in $(seq -w 1 19); do
   p=C$i
